@@ -251,6 +251,9 @@ def run_c06(ctx, cases, ref=False):
             dist["sx:" + c["sx"]] += 1
             dist["noise_free" if c["noise_free"] else "noisy"] += 1
         dist["xrange" if c["xrange"] else "whole"] += 1
+        u = c.get("scale", [1.0, 1.0])
+        dist["units:x*{:g}".format(u[0])] += 1
+        dist["units:y*{:g}".format(u[1])] += 1
         if c["xrange"]:
             if c["xrange"][0] in c["x"]:
                 dist["xrange:low-bound-on-a-data-point"] += 1
